@@ -87,7 +87,18 @@ FileNode(p, md) == [k |-> "f", ents |-> <<>>, m |-> p, md |-> md]
 \* The index never looks at them.  VFSZip.stat does: it turns date_time into a time with
 \* time.mktime(zt + (0, 0, -1)), which NORMALISES any field combination (StatDefined is total), and
 \* reports a constant mode; so a member exists for stat whatever its header says.
-MetaClasses == {"std", "dt0", "dtoor", "dt2107", "stored", "empty", "dos", "mode0"}
+\* For TEXT METADATA members (UMN link files .Links/.names, .cap/<name> files, side-cars) md also names the
+\* class of LINE ENDS of the content; these members are read through VFSZip.open(mode="r") while their twins on
+\* disk are read in text mode with universal newlines:
+\*   le_crlf  CR LF        le_cr  bare CR (classic Mac)        le_mixed  LF, CR LF and CR in one file
+\*   le_nofinal  LF, last line unterminated
+\*   le_seps  LF line ends, and FF / VT / U+0085 / U+2028 INSIDE lines (line ends for str.splitlines(), not for
+\*            universal newlines)
+\* Named deviation TextSplitsLikeSplitlines (pinned tree): VFSZip.open(mode="r") wraps the member in a
+\* codecs.StreamReader, whose readline()/readlines() split with str.splitlines() - also at FF, VT, FS.., U+0085,
+\* U+2028 - so a le_seps member is cut into more lines than its twin on disk (finding C16-text-member-splitlines).
+LineEndClasses == {"le_crlf", "le_cr", "le_mixed", "le_nofinal", "le_seps"}
+MetaClasses == {"std", "dt0", "dtoor", "dt2107", "stored", "empty", "dos", "mode0"} \cup LineEndClasses
 StatDefined(md) == md \in MetaClasses
 
 EntLookup(ents, n) ==
